@@ -85,7 +85,7 @@ def main():
         base_ok = base_ok and tests_ok(out, 174)
         record("174 baseline tests pass with the change in the release profile", "cargo test --offline --release --lib", tests_ok(out, 174), out)
     rc, out = sh(cmd, cwd=wt, env=env)
-    demo_fail_patched = rc != 0 and ("test result: FAILED" in out or "panicked" in out)
+    demo_fail_patched = rc != 0 and ("test result: FAILED" in out or "panicked" in out or "overflowed its stack" in out or "signal:" in out)
     record("demo with the change must fail", cmd, demo_fail_patched, out)
     confirmed = demo_pass_clean and applies and base_ok and demo_fail_patched and rc1 == 0 and rc2 == 0
     meta["confirmed"] = confirmed
